@@ -314,6 +314,40 @@ func ruleNormProv(c *Ctx) {
 	if n < 4 {
 		c.Undecided("NORMPROV", "instance-count", token.NoPos, fmt.Sprintf("%d stores to Inline.ref found, 4 confirmed by hand", n))
 	}
+	// NORM-FOLD: every result of the normaliser passed through Unicode case folding
+	for i, r := range returnsOf(t2) {
+		v := r.Results[0]
+		good := false
+		if cl, ok := v.(*ssa.Call); ok {
+			if f := cl.Call.StaticCallee(); f != nil && f.String() == "(golang.org/x/text/cases.Caser).String" {
+				if inner, ok := cl.Call.Args[0].(*ssa.Call); ok && inner.Call.StaticCallee() != nil && inner.Call.StaticCallee().String() == "golang.org/x/text/cases.Fold" {
+					good = true
+				}
+			}
+		}
+		if str, ok := constString(v); ok && str == "" {
+			good = true
+		}
+		c.Check(good, "NORMPROV", fmt.Sprintf("transformLinkReferenceSpan:return#%d:folded", i), r.Pos(), "every label the normaliser returns must be the result of cases.Fold().String(…): a path that skips folding stores keys in a different normal form")
+	}
+	// BACKTRACK-FULL: when the label starts at a node emitted earlier (the position after an opener on the delimiter stack),
+	// the normaliser must be given the whole unparsed list, not the suffix from the current node.
+	for _, fn := range p.Funcs {
+		eachInstr(fn, func(in ssa.Instruction) {
+			call, ok := in.(*ssa.Call)
+			if !ok || call.Call.StaticCallee() != t2 || fn == t1 {
+				return
+			}
+			nodes := call.Call.Args[1]
+			if sl, ok := nodes.(*ssa.Slice); ok && sl.Low != nil && !isZero(sl.Low) {
+				if _, isUnparsed := isLoadOfField(sl.X, "inlineState", "unparsed"); isUnparsed {
+					c.Viol("NORMPROV", shortFuncName(fn)+":label-nodes", in.Pos(), "a label that began at an earlier node is normalised over only the suffix of the unparsed list: the text before the current node is lost")
+					return
+				}
+			}
+			c.OK("NORMPROV", shortFuncName(fn)+":label-nodes", in.Pos(), "normaliser is given the full node list")
+		})
+	}
 	// delegation
 	deleg := true
 	for _, r := range returnsOf(t1) {
